@@ -961,7 +961,7 @@ var c15Corpus = []string{
 	"日本語", "温度 25度", "\U0001F600", "a\U0001F600b", "éè", "\u0000x", "a\u0001b", "\u001b[0m", "a\u007fb",
 	"", "{a}", "[a]", "{", "}", "[", "]", "a, b", ",", "!!str a", "!t", "&a b", "&a", "*a", "| a", "|", "> a", ">", "%a", "@a", "`a",
 	"\\", "a\\nb", "a\\", "\\t", "--- a", "---", "...", "a:", "a:b", "?", "? ", "- ", "x: \"y\"", "key: [1, 2]",
-	"\t|", "\t>", "\t-", "? (import)",
+	"\t|", "\t>", "\t-", "? (import)", "?  (import)", "-  (import)",
 	// further families found by enumerating short strings over YAML-significant tokens (one representative each)
 	"a\x00: ", "a\x7f: ", "a  \n", "\n a", "\n -", "\"\n\n: ", "\u0085: 0x", "\u00a0: - ", "\ufeff: : ", "\u2028:  #",
 	// multi-line text as a file node holds it: indented first line, nested indentation, blank lines, trailing newlines
